@@ -135,6 +135,17 @@ func (g *DocGen) num() string {
 		} else if g.r.P(1, 6) {
 			s += ".0"
 		}
+		if m := ((v%9)+9)%9; m == 4 || m == 5 && frac > 0 {
+			// the same small, exact value written with 17-22 characters (decided
+			// by the value, not by a draw): conversions of long number texts may
+			// take another path than those of short ones (memo tables, slow paths)
+			if !strings.Contains(s, ".") {
+				s += "."
+			}
+			for len(s) < 17+((v%5)+5)%5 {
+				s += "0"
+			}
+		}
 		return jnum("jn", s)
 	case 8:
 		return jnum("int", strconv.Itoa(v))
